@@ -192,10 +192,15 @@ def REPLACE(
     num_chars_int = int(num_chars)
     new_text_str = str(new_text)
 
-    sliced_old_text = old_text_str[start_num_int:
-                                   start_num_int + num_chars_int]
+    if start_num_int < 0 or num_chars_int < 0:
+        raise xlerrors.ValueExcelError(
+            f'start_num {start_num} must be >= 1 and '
+            f'num_chars {num_chars} must be >= 0')
 
-    return old_text_str.replace(sliced_old_text, new_text_str)
+    # Replace the characters at that position only, not every occurrence
+    # of the same characters.
+    return (old_text_str[:start_num_int] + new_text_str
+            + old_text_str[start_num_int + num_chars_int:])
 
 
 @xl.register()
